@@ -481,6 +481,9 @@ def deadlock_check(r):
 
 def oracle_C07(r):
     bad = []
+    if r.get("ghost_stops"):
+        bad.append(("C07:never-started-service-stopped", f"the teardown action of service task(s) {r['ghost_stops']} ran "
+                    f"although the start of the service was cut short before it had come up"))
     prog = r["prog"]
     o = r["outcome"]
     log = flat_obs(r)
